@@ -694,7 +694,7 @@ def mpf_log(x, prec, rnd=round_fast):
     # cancellation when moving to fixed-point math and compensate
     # by increasing the precision. Note that abs_mag in (0, 1) <=>
     # 0.5 < x < 2 and x != 1
-    if abs_mag <= 1:
+    if mag == 0 or mag == 1:
         # Calculate t = x-1 to measure distance from 1 in bits
         tsign = 1-abs_mag
         if tsign:
